@@ -219,15 +219,16 @@ def corner_texts():
 
 
 def lex_part(ctx, binary):
-    cfgs = ("XmlLexImpl_A8.cfg", "XmlLexImpl_B7.cfg", "XmlLexImpl_F5.cfg") if ctx.quick else \
-           ("XmlLexImpl_A10.cfg", "XmlLexImpl_B8.cfg", "XmlLexImpl_F6.cfg")
+    # three alphabets: A = tags/attributes {< > / = " a SP}, B = comments/PIs/lines {< > ! - ? a LF}, F = all 12 symbols
+    cfgs = (("XmlLexImpl_A8.cfg", True), ("XmlLexImpl_B7.cfg", True), ("XmlLexImpl_F5.cfg", True)) if ctx.quick else \
+           (("XmlLexImpl_A10.cfg", True), ("XmlLexImpl_B7.cfg", True), ("XmlLexImpl_F6.cfg", True), ("XmlLexImpl_B8.cfg", False))
     inputs = set()
     nedges = 0
-    for cfg in cfgs:
+    for cfg, dump in cfgs:
         dot = os.path.join(ctx.work, "xmllex.dot")
-        r = vlib.tlc(SPECDIR, "XmlLexImpl", cfg, workers=8, timeout=1800, dump=dot, xmx="8g")
+        r = vlib.tlc(SPECDIR, "XmlLexImpl", cfg, workers=8, timeout=1800, dump=dot if dump else None, xmx="8g")
         ctx.add_tlc(cfg[:-4], r)
-        if r.ok:
+        if r.ok and dump:
             ins, ne = base.edge_inputs(dot)
             inputs.update(ins)
             nedges += ne
@@ -235,7 +236,11 @@ def lex_part(ctx, binary):
             os.remove(dot)
     ctx.notes["acceptor_transitions"] = nedges
     ctx.notes["acceptor_inputs_replayed"] = len(inputs)
-    ops = ["parse " + hexs(t) for t in sorted(inputs, key=lambda t: (len(t), t))]
+    ordered = sorted(inputs, key=lambda t: (len(t), t))
+    ops = ["parse " + hexs(t) for t in ordered]
+    # probe suffixes: see c15.lex_part
+    probes = [(62, 60), (34, 62, 1, 60, 47), (63, 62, 97, 97, 97, 97, 61)]      # >< / close a string, tag + junk / close a PI + a long last line
+    ops += ["parse " + hexs(t + sfx) for t in ordered[:(25000 if ctx.quick else 150000)] for sfx in probes]
     ops += ["parse " + hexs(t) for t in corner_texts() + nesting_texts(1000) + nesting_texts(30)]
     ops += ["parse " + hexs(t) for t in random_texts(ctx.rng, 3000 if ctx.quick else 40000)]
     base.check_stateless(ctx, binary, ops, "parse", "XmlLexTrace", "XmlLexTrace.cfg", key_of, per_exec=1000, max_lines=60000)
